@@ -39,6 +39,27 @@ Clauses (als_func, Chebyshev basis):
 * C07.als_func.permutation        sample order does not matter.
 * C07.als_func.info_stop          info['nswp'] / info['stop'] for nswp, e, e_vld; the result is the one of that many sweeps.
 
+Clauses added by the parameter-coverage audit:
+* C07.als.adaptive_use_stab       rank-adaptive mode with the documented flag use_stab=True: contract of adaptive_ranks.
+* C07.als.adaptive_swap           rank-adaptive mode with allow_swap=True (validation data = multi-index 0, valid in any
+                                  mode order): well-formed finite tensor, mode sizes a reordering of the original ones,
+                                  ranks <= r, info, training data untouched.
+* C07.als.adaptive_swap_vld       the same with general validation multi-indices and modes of different size.
+* C07.als.adaptive_swap_no_vld    the same without validation data.
+* C07.als.update_sol              update_sol=True (ridge-damped corrections): shapes / ranks kept, the weighted data misfit
+                                  never increases from sweep to sweep, rejected together with r.
+* C07.als.defaults                nswp / e / lamb / info left out: <= 50 sweeps, documented stop, objective with the
+                                  documented lamb = 0.001 not above F(Y0), core 1 optimal, shared default info harmless.
+* C07.als_func.update_sol / C07.als_func.defaults   the same for the functional version (a=-1, b=1, lamb=1e-3).
+Every general clause takes an optional `opt` dictionary (see _problem / _als / _fproblem / _alsf): the same problem
+at another absolute scale (y -> c y, cores of Y0 -> c^(1/d), lamb -> c^(2(d-1)/d) lamb; c = 1e-12 .. 1e12), y or Y0
+alone scaled by 1e+-3 .. 1e+-12, nested-list / int8 / int32 / float32 argument forms, Fortran-ordered and
+non-contiguous cores, keyword arguments that must be inert in the constant-rank mode (use_stab, allow_skip_cores
+with complete data, swap_tol, e_adap, r_add) and log=True, weights with exact zeros, integer-typed weights; further
+lamb in {1e-13 .. 1e6}, d = 5, 6 (8 thorough), mode sizes 12 (30 thorough), ranks 4, 5 on cores that cannot carry
+them, single-sample slices with a weight vector; adaptive mode with e_adap in {1e-1, 1e-12}, r_add in {0, 2}, ragged
+initial rank profiles, scaled data; als_func with own basis functions (fh: one function / a list of d functions).
+
 Samples: every general clause uses training lists in which the sample at position 0 is not the only sample of
 any slice (single-sample slices at positions >= 1 do occur), so that the known defect is confined to its clause.
 Tolerances: every core update solves ridge systems of condition kappa = (|A^T W A| + lamb) / lamb with a
@@ -56,9 +77,14 @@ from rtc import gen
 
 
 BUDGET = (60, 600)
-BOUNDS = ('als: d in 2..4, n_k in 1..4, ranks 1..3, <= 80 samples (Gaussian values), lamb in 1e-4..1, with / '
-          'without weights, 4 sweeps (quick) / up to 8 (thorough); single-sample slice at every list position of '
-          'lists with <= 14 samples for every mode; als_func: d in 2..4, n in 2..4 Chebyshev modes, 30..60 points')
+BOUNDS = ('als: d in 2..4 (5, 6; 8 thorough), n_k in 1..4 (12; 30 thorough), ranks 1..3 (4, 5 over-ranked), <= 80 samples '
+          '(Gaussian values), lamb in 1e-4..1 (and 1e-10, 1e-7, 10, 1e3; 1e-13, 1e6 thorough), with / without weights '
+          '(zeros, integer-typed), 4 sweeps (quick) / up to 8 (thorough); problem scale c in 1e-12..1e8 (1e12 thorough), '
+          'y / Y0 scale 1e+-3..1e+-6 (1e+-12 thorough); list / int8 / int32 / float32 forms, F-ordered / non-contiguous '
+          'cores, inert keyword arguments, log=True, default arguments; single-sample slice at every list position of '
+          'lists with <= 14 samples for every mode (also weighted); adaptive mode: e_adap {1e-1,1e-3,1e-12}, r_add '
+          '{0,1,2,1e4}, use_stab, allow_swap (3-5 modes of different size, 12 + 5 cases quick); update_sol; als_func: '
+          'd in 2..4, n in 2..4 Chebyshev modes or own basis functions (monomials / cosines), 30..60 points')
 
 ALS = ('als.als', 'als._optimize_core', 'als._lstsq', 'utils._info_appr')
 ALSF = ('als_func.als_func', 'als_func._optimize_core', 'utils._info_appr')
